@@ -121,7 +121,7 @@ class Contract:
     def __init__(self, name, fn, params, result=None, requires=None, ensures=None, raises=None,
                  modifies=None, loops=None, decreases=None, depth=None, assumed=False,
                  raises_post=None, pure=False, locals_types=None, cls=None, ghost_args=None,
-                 may_raise_any=False, notes='', allow_implicit=(), mutates=()):
+                 may_raise_any=False, notes='', allow_implicit=(), mutates=(), asserts_raise=False, invariants=None):
         self.name, self.fn = name, getattr(fn, '__func__', fn)
         self.params, self.result = params, result
         self.requires, self.ensures = requires, ensures
@@ -137,6 +137,8 @@ class Contract:
         self.may_raise_any = may_raise_any
         self.allow_implicit = tuple(allow_implicit)
         self.locals_types = locals_types or {}
+        self.asserts_raise = asserts_raise
+        self.invariants = invariants      # lambda cx: [(name, BoolRef)] - instances of a data-structure invariant established elsewhere: assumed on entry, never a call-site obligation (listed as assumed)
         self.mutates = tuple(mutates)     # list/dict PARAMETERS the function may mutate in place
         self.notes = notes
 
@@ -227,6 +229,16 @@ class Ctx:
         n = self.nfresh.get(name, 0)
         self.nfresh[name] = n + 1
         return z3.Const('%s!%d' % (name, n), sort)
+
+    def skolem(self, name, sort):
+        """A named arbitrary constant shared by every contract evaluated on this path: a callee's
+        'for every x' postcondition is thereby instantiated at the caller's x (sound: instantiation
+        of a universally quantified fact); in the callee's own proof the constant is unconstrained."""
+        if not hasattr(self, '_skolems'):
+            self._skolems = {}
+        if name not in self._skolems:
+            self._skolems[name] = z3.Const('sk_' + name, sort)
+        return self._skolems[name]
 
     def fresh_of(self, name, ty):
         return ty.wrap([self.fresh(name + s, so) for s, so in ty.comps()])
